@@ -686,7 +686,7 @@ class AdvancedHTMLParser(HTMLParser):
         if canFilterTags is False:
             raise NotImplementedError('filter methods requires QueryableList installed, it is not. Either install QueryableList, or try the less-robust "find" method, or the getElement* methods.')
 
-        allNodes = self.getAllNodes() + [self]
+        allNodes = self.getAllNodes()
 
         filterableNodes = FilterableTagCollection(allNodes)
 
